@@ -4,7 +4,7 @@ from vlib import lib, tablecheck
 from vlib.oracle import Ref
 
 PROPERTY = 'C04'
-RULE = ('cases are context tables (plus Hypothesis tables wider than a machine word: 1-6 x 60-140 and transposed) as for C03 (exhaustive n*m <= 12 quick / <= 18, 4x5, 5x4, 5x5 and 6x4 row multisets '
+RULE = ('cases are context tables (plus Hypothesis tables wider than a machine word: 1-6 x 60-320 and transposed) as for C03 (exhaustive n*m <= 12 quick / <= 18, 4x5, 5x4, 5x5 and 6x4 row multisets '
         'thorough; Hypothesis fill families beyond). Oracle: each of fast_generate_from, fcbo_dual, iterconcepts, '
         'get_concepts yields a repeat-free sequence whose set of (extent, intent) equals the brute-force concept set '
         '(hence they agree with each other and with context.lattice); wrappers yield Concept named tuples / a '
